@@ -982,6 +982,15 @@ def check(prog, rep):
     c.cross_func = next((t for t in callees.values() if t is not c.recon_func and len(t.params) == 2 and
                          all(isinstance(r.value, ast.Constant) and isinstance(r.value.value, bool)
                              for r in t.own_nodes() if isinstance(r, ast.Return))), None)
+    if c.cross_func is None:
+        # whatever it returns: the two-parameter callee that is handed a cell value and the barrier list
+        cands = []
+        for n in kern.own_nodes():
+            if isinstance(n, ast.Call) and len(n.args) == 2 and isinstance(n.args[0], ast.Subscript):
+                t = prog.resolve_callable(kern, m, n.func)
+                if isinstance(t, Func) and t is not c.recon_func and len(t.params) == 2 and t not in cands:
+                    cands.append(t)        # called with a cell of an array and one more argument
+        c.cross_func = cands[0] if len(cands) == 1 else None
     if c.recon_func is None or c.cross_func is None:
         raise AnalysisIncomplete('search kernel: reconstruction / crossable helpers not identified')
     c.data = kern.params[0]
